@@ -11,14 +11,14 @@ META = {
             "harness: the REAL Store.InsertLogs runs (bun transaction, COPY prepared through lib/pq's statement text, one Exec per entry) over a database/sql "
             "driver that plays the logs table and records the arguments; they are compared column by column with the model's row (the idempotency key AS IT "
             "IS, keys around and beyond the column's width included), read back as a SELECT hands them over (Logs.ToCore), compared field by field with the "
-            "entry that was handed in and re-hashed over the previous row read back; GetLastLog and ReadLogWithIdempotencyKey of the same Store answer from "
+            "entry that was handed in and re-hashed over the previous row read back; GetLastLog, ReadLogWithIdempotencyKey and GetLogs of the same Store answer from "
             "the same table. Entries written by the real Commander in the engine runs go through the same InsertLogs. An independent oracle evaluates the "
             "property itself on the implementation's outputs.",
     "note": "Trusted: Lean kernel (axioms propext/Classical.choice/Quot.sound at most); the harness' canonical dump of Go values (integer Go types "
             "*big.Int/uint64 are one kind 'int', float64 is another); the process runs with TZ=UTC (time.Parse attaches Local when the offset matches); "
             "PostgreSQL itself and lib/pq's wire encoding (not executable here): harness/logstore.go states column by column what the table does with an argument "
             "(varchar: the text — the length limit of idempotency_key is NOT enforced, see assumptions —, numeric: the decimal text, bytea: the bytes, "
-            "timestamp without time zone: the wall-clock reading at microsecond resolution, jsonb: keys re-ordered) and which two SELECT shapes it can answer. "
+            "timestamp without time zone: the wall-clock reading at microsecond resolution, jsonb: keys re-ordered) and which SELECT shape it can answer. "
             "The v1->v2 log migration (migrations_v1.go) rewrites legacy logs and copies their hashes verbatim; it writes no DELETE_METADATA and is not modelled.",
     "technique": "Lean 4 proofs (structural induction, parser/printer inversion, omega) + differential correspondence at tree, byte and hash level",
     "design_ref": "3.6 (model D), 5 (C13), 6 #5 #11 #12, 8 (log round-trip probe), appendix C",
@@ -135,7 +135,7 @@ def oracle_entry(spec, e):
         if len(v) == n_before and ("ok" not in rb or canon(rb["ok"]) != canon(e["dump"]) or rb.get("rehash") != e["hash"]):
             v.append((dict(base, **{"class": "store-jsonb-order"}), "Logs.ToCore on the row with jsonb key order gives %s" % canon(rb)[:300]))
     # the store's own reads over the same table: the last entry after the InsertLogs call that wrote this one; the entry found under its key
-    for k, name in (("last", "GetLastLog"), ("bykey", "ReadLogWithIdempotencyKey")):
+    for k, name in (("last", "GetLastLog"), ("bykey", "ReadLogWithIdempotencyKey"), ("listed", "GetLogs")):
         g = e.get(k)
         if g is None or "skipped" in g:
             continue
@@ -341,7 +341,7 @@ def run(ctx):
         "tied to the code by the differential only (trees, bytes, hashes)",
         "harness/logrt.go: builds logs with the repo's constructors, canonical dump of Go values, recover() around the code under test",
         "harness/logstore.go: the logs table behind the real ledgerstore.Store (records the COPY arguments of InsertLogs, hands rows back the way PostgreSQL + "
-        "lib/pq would for the column types of 0-init-schema.sql, evaluates `SELECT * FROM logs WHERE (col = 'literal') [AND …] ORDER BY id desc LIMIT 1`)",
+        "lib/pq would for the column types of 0-init-schema.sql, evaluates `SELECT * FROM logs WHERE (col = 'literal' | id <= n) [AND …] ORDER BY id desc|asc LIMIT n`, nothing else)",
         "from-scratch SHA-256 in Lean, compared with crypto/sha256 on random inputs of every padding-boundary length on each run",
         "TZ=UTC for the harness process; PostgreSQL (jsonb / timestamp / varchar(n)) not executed",
     ]
@@ -423,7 +423,7 @@ def run(ctx):
     seen, nontrivial, n_entries, n_refused = set(), 0, 0, 0
     dist = {"log": {}, "chain_length": {}, "features": {}, "decode": {}, "time_cases": {"accepted": 0, "refused": 0},
             "idempotency_key_length_in_characters": {}, "idempotency_key_multi_byte": 0, "idempotency_key_with_quote_backslash_or_control": 0,
-            "entries_per_InsertLogs_call": {}, "read_through_the_store": {"GetLastLog": 0, "ReadLogWithIdempotencyKey": 0, "skipped (NUL in the key)": 0}}
+            "entries_per_InsertLogs_call": {}, "read_through_the_store": {"GetLastLog": 0, "ReadLogWithIdempotencyKey": 0, "GetLogs": 0, "skipped (NUL in the key)": 0}}
     facts = key_column_facts()
     first_of_sig = {}
     for inp in inputs:
@@ -462,9 +462,9 @@ def run(ctx):
                 bump(dist["idempotency_key_length_in_characters"], key_bucket(ik, facts["schema"]))
                 dist["idempotency_key_multi_byte"] += any(ord(ch) > 127 for ch in ik)
                 dist["idempotency_key_with_quote_backslash_or_control"] += any(ch in "'\"\\" or ord(ch) < 32 or ord(ch) == 127 for ch in ik)
-                for rk, name in (("last", "GetLastLog"), ("bykey", "ReadLogWithIdempotencyKey")):
+                for rk, name in (("last", "GetLastLog"), ("bykey", "ReadLogWithIdempotencyKey"), ("listed", "GetLogs")):
                     if rk in e:
-                        bump(dist["read_through_the_store"], "skipped (NUL in the key)" if "skipped" in e[rk] else name)
+                        bump(dist["read_through_the_store"], ("skipped (NUL in the key)" if rk == "bykey" else "skipped (GetLogs: excluded entry in the chain)") if "skipped" in e[rk] else name)
                 dk = "ok" if "ok" in e.get("dec", {}) else "error" if "error" in e.get("dec", {}) else "panic"
                 dist["decode"][dk] = dist["decode"].get(dk, 0) + 1
                 nonempty, f, nt = features(spec)
